@@ -17,6 +17,10 @@ CHECKS = {
          'Static structural analysis: every debit in _change_slot_states / Node.allocate_slot has a mirrored credit under the mirrored condition; unschedule_task frees exactly task[slots] with FREE; _active_cnt is written only by grant (+1 on every granting path, also for pre-placed tasks) and release (-1 once per queued task, every queued task released); the unschedule message reaches and is kept by the scheduler loop; roll-back of partial application-level searches. Decides these necessary conditions on all paths of the anchors, not the run-time history.',
          'Trusted: zmq pubsub delivers each unschedule message once. Not decided: NUMA-domain lfs path (alias reasoning over run-time objects), thread interleavings.',
          'DESIGN.md section 5 / C03'),
+ 'C04': ('effect counting over CFG path enumeration (exactly one outcome per task per loop iteration), control-dependence of the never-schedulable raise, ordering and def-use of the wake-up flag',
+         'Static analysis of the scheduling loop: on every path through the intake loop, the placement loop, the wait-pool insertion/cancel check, the wait-pool triage and the consumption of the three lazy_bisect results each task gets exactly one outcome (hand-on xor retention); the "can never be scheduled" raise is control dependent on _active_cnt == 0 (and the counter discipline R03.3 holds); priorities are iterated descending; a release re-enables the wait pool pass; cancel of waiting tasks removes and reports together. Decides loss/duplication per path, not timing or starvation freedom.',
+         'Trusted: ru.lazy_bisect partition contract; effect calls atomic. Not decided: starvation freedom, "as soon as" (timing).',
+         'DESIGN.md section 5 / C04'),
 }
 PENDING = 'check not built yet in this round (static rules designed in DESIGN.md section 5); not claimed until the checker exists'
 NA = {}
